@@ -7,7 +7,7 @@ import sys
 import esrv
 
 PROPS_V = "Props/C03.v"
-TRANSLATORS = []
+TRANSLATORS = ["uniq"]
 IMPL = os.path.join(esrv.VERIF, "harness", "corr", "c03_impl.py")
 
 SHIPPED = ["core_maths", "ext_maths", "osc_maths", "base10_maths", "base_e_maths", "keep_duplicates"]
@@ -639,6 +639,8 @@ TRUSTED = [
     "Coq 8.16.1 kernel + vm_compute (no native_compute)",
     "Print Assumptions: every C03 theorem is closed under the global context (no axioms; strings/substitutions are abstract ids, "
     "values and parameter vectors abstract types)",
+    "translator harness/translate/uniq.py + pyd.py/pyz.py (fail-closed Python ast -> Gallina): utils.get_unique_indexes and get_match_indexes are regenerated "
+    "into coq/Gen/GenUniq.v on every run and proved equal to the hand model for every input (C03_code_*_is_model)",
     "hand-written models coq/Model/Uniq.v and coq/Model/DoSympy.v, tied to the source on every run by oracle-trace replay: the real "
     "duplicate_checker.main runs with recording wrappers and the model, fed with the recorded oracle answers, must reproduce call "
     "arguments, per-round files, round counts, all_fun, concatenated chains and the three files before/after check_results",
@@ -662,7 +664,7 @@ ASSUMPTIONS = [
     "recorded calls (tin all None) on every run",
 ]
 LEVEL_TEXT = ("Machine-checked theorems (Coq, no axioms) on a faithful model of the duplicate-merging bookkeeping: get_unique_indexes / "
-              "get_match_indexes specifications; for ANY shuffle permutation uniq'[match_idx k] = all_fun k; and, for any number of rounds in "
+              "get_match_indexes specifications (also proved of the two functions as regenerated from utils.py on every run); for ANY shuffle permutation uniq'[match_idx k] = all_fun k; and, for any number of rounds in "
               "both phases, with sympy's answers as contract-bound oracles, every function composed with its concatenated, file-recombined, "
               "cancelled chain denotes exactly its unique, nan rows imply strictly fewer parameters, every table has one row per function, "
               "and check_results' un-merge leaves every touched function as its own unique with an empty row and all others unchanged. "
@@ -672,5 +674,5 @@ LEVEL_NOTE = ("Not proved: that sympy's individual rewrites satisfy the contract
               "the text round trip of chain files (C17); that extra trees equal their originals (C11). The un-merge of check_results is "
               "additionally tied by running the real function on crafted library files (incl. an un-merged function whose own string is "
               "already a unique entry, the case repaired in commit 50d5ff4).")
-TECHNIQUE = ("Coq proof over hand-written models (list/dict induction, round invariant, composition order) + oracle-trace replay of real "
+TECHNIQUE = ("Coq proof over translator-generated get_unique_indexes/get_match_indexes (refinement to the model) and hand-written models (list/dict induction, round invariant, composition order) + oracle-trace replay of real "
              "runs under vm_compute + exhaustive small-list correspondence + mpmath statement check on every generated library")
